@@ -231,7 +231,12 @@ func checkC10(c c10Case, rec *Rec) *Violation {
 	if !reflect.DeepEqual(d, r2.DNSRewrite) {
 		return viol(id, "C10:nondeterministic", "parsing %q twice gives %+v and %+v", txt, *d, *r2.DNSRewrite)
 	}
-	if s := c10RoundTrip(c.Value, d); s != "" {
+	if strings.Contains(c.Value, "\\\\") {
+		// Two backslashes in a row: the modifier-list syntax defines "\\," only; what a doubled escape
+		// character stands for is not specified (the parser keeps one of them), so the value itself is
+		// not compared with the text.  The shape and determinism checks above still apply.
+		rec.Label("value-not-compared:doubled-escape-character")
+	} else if s := c10RoundTrip(c.Value, d); s != "" {
 		return viol(id, "C10:value-differs-from-text:"+s, "value %q accepted with DNSRewrite %+v (Value %+v): %s", c.Value, *d, d.Value, s)
 	}
 	_ = c10Consume(d) // panics (=> violation) if the dynamic type is not the documented one
